@@ -71,9 +71,10 @@ def c17 (toks : List String) : Option String :=
     let (r, ev) := branchRun (stageFn e) st.bs st.default v
     let rs := match r with | some (n, x) => s!"{n}={x}" | none => "error"
     some (" ".intercalate (outs ++ ["B", rs, "E", if ev.isEmpty then "-" else ",".intercalate ev]))
-  | ["fb", x, iters] => do
+  | ["fb", x, iters, mode] => do
     let x ← x.toNat?; let n ← iters.toNat?
-    let (o, tr) := feedback (stageFn 0) stageFn2 x n
+    let (o, tr) := if mode = "1" then feedback (fun s _ => s * 1000 + 7) (fun s _ _ => s * 1000 + 7) x n
+      else feedback (stageFn 0) stageFn2 x n
     some s!"O {match o with | some d => toString d | none => "none"} T {showTrace tr}"
   | ["mac", joint, xs] => do
     let xs ← natList? xs
